@@ -679,6 +679,7 @@ def gen_policy_trace(seed):
     strat = r.choice(["lru", "plru"])
     n = r.choice([1, 2, 4, 8, 16]) if strat == "plru" else r.randint(1, 16)
     length = r.choice([r.randint(1, 10), r.randint(10, 60), r.randint(40, 200)]) * R.deep(r)
+    length = R.marathon(seed) or length
     seq = []
     hot = r.sample(range(n), max(1, n // 2))
     for _ in range(length):
@@ -775,7 +776,7 @@ def gen_setwalk_trace(seed):
     bb = r.choice([0, 0, 1])
     ntags = ways + r.randint(1, 3)
     ops = []
-    for _ in range(r.choice([r.randint(1, 8), r.randint(6, 30), r.randint(20, 60)]) * R.deep(r)):
+    for _ in range(R.marathon(seed) or r.choice([r.randint(1, 8), r.randint(6, 30), r.randint(20, 60)]) * R.deep(r)):
         tag = r.randrange(ntags)
         idx = r.randrange(1 << ib)
         addr = ((tag << ib | idx) << (bb + 2)) + 4 * r.randrange(1 << bb)
@@ -875,7 +876,7 @@ def gen_icwalk_trace(seed):
     nprog = r.choice([r.randint(1, 6), r.randint(4, 40), r.randint(30, 120)])
     ops = [["LOAD", nprog]]
     pc = 0
-    for _ in range(r.choice([r.randint(1, 10), r.randint(8, 60), r.randint(40, 150)]) * R.deep(r)):
+    for _ in range(R.marathon(seed) or r.choice([r.randint(1, 10), r.randint(8, 60), r.randint(40, 150)]) * R.deep(r)):
         k = r.random()
         if k < 0.55:
             pc = pc + 4  # sequential fetch
